@@ -62,7 +62,7 @@ claimed = {
    "NOT decided (quantify over numeric size vectors and workloads): which size class is adopted, that 'nothing to do' coincides with 'no two adjacent tables in one class', the 2*log2(N) depth bound and the N*log2(N) rewrite cost, non-negativity of candidate sizes"),
  "C18": ("panic reachability vs allow-table, nil contracts, bounds obligations in a linear-inequality domain over simulated paths", "DESIGN §3.6, §4 C18, Appendix B",
    "No input-controlled explicit panic is reachable from the read API; nilable results are checked before use; all ~300 index/slice/allocation obligations of the 22 decoder and opener functions are discharged on every path from linear facts (loop invariants checked inductively, value-changing conversions opaque, unsigned differences opaque unless shown not to wrap); a nilable result is also not handed to a function that dereferences the parameter; inflated data is read through a limit; the index descent checks the type of the block an index entry leads to (DT-DESCEND, precondition of an allow-table entry).",
-   "termination on hostile inputs is NOT decided; obligations outside the decoder set are not generated; preconditions and field invariants listed in the evidence are assumed"),
+   "termination is decided for the index descent only (DESCEND-DECREASES: every step leads to a strictly lower offset); obligations outside the decoder set are not generated; preconditions and field invariants listed in the evidence are assumed"),
 }
 not_applicable_reason = {
 }
